@@ -2114,7 +2114,7 @@ class SourceCatalog:
         if self._error is None:
             err = self._null_values
         else:
-            err = np.sqrt(np.array([np.sum(arr**2)
+            err = np.sqrt(np.array([np.sum(np.asarray(arr, dtype=float)**2)
                                     for arr in self._error_values]))
 
         if self._data_unit is not None:
